@@ -227,7 +227,39 @@ def check_chain(fx, rep, crate, cfg):
         rep.check(not fl, 'R06.2', '%s|enqueue-only|%s' % (body.path, cfg), body.where(),
                   'enqueues without flushing (the whole chain goes out in one write at send)',
                   'a chain-building function flushes or writes: the chain no longer reaches the transport in one write', {'sites': fl})
-    rep.floor('R06.1', 3, 'owed expression + enqueue sites (new, append)')
+    # constructions of the chain outside the enqueue sites: the owed count must start at 0 there (whoever enqueued the first call did
+    # not account for its oneway flag)
+    enq_paths = set()
+    for f in chain_fns:
+        body = C.async_body(crate, f)
+        if any(t['callee'].get('name') in ('enqueue_call', 'enqueue') and 'write_connection::WriteConnection' in (t['callee'].get('def') or '') for _, t in body.iter_terms('call')):
+            enq_paths.add(body.path)
+    for body in crate.bodies:
+        if body.in_test or body.path in enq_paths:
+            continue
+        for b0, i0, s0 in C.aggr_adt_sites(body, CH):
+            if not (s0['rv'].get('adt') or '').endswith('chain::Chain'):
+                continue
+            fields = s0['rv'].get('fields') or []
+            val, unknown = 0, False
+            for name, coeff in owed.items():
+                if name == 1:
+                    val += coeff
+                    continue
+                if name not in fields:
+                    unknown = True
+                    continue
+                op = s0['rv']['ops'][fields.index(name)]
+                tr = body.trace(op)
+                if tr.get('kind') == 'const' and isinstance(tr.get('val'), int):
+                    val += coeff * tr['val']
+                else:
+                    unknown = True
+            rep.check(not unknown and val == 0, 'R06.1', '%s|chain-built-without-enqueue|%s' % (body.path, cfg), C.where(body, b0, i0),
+                      'a chain built by a function that enqueues nothing starts with 0 replies owed',
+                      'a Chain is built here with %s replies owed although this function enqueues no call (and so cannot know whether the call was oneway): a chain that starts '
+                      'with a oneway call then waits for a reply nobody owes' % ('an unknown number of' if unknown else val))
+    rep.floor('R06.1', 2, 'owed expression + at least one enqueue site')
     # ---- R06.2 send
     flushes = [(b, t) for b, t in sb.iter_terms('call') if t['callee'].get('name') == 'flush']
     ok = len(flushes) == 1
@@ -420,8 +452,11 @@ def check_stream(fx, rep, crate, cfg):
                     tr = pn.trace(a)
                     if tr.get('kind') == 'const' and tr['op'].get('promoted'):
                         m = re.search(r'promoted\[(\d+)\]', tr['op'].get('s', ''))
-                        if m and pn.d.get('promoted') and int(m.group(1)) < len(pn.d['promoted']):
-                            prom = ' ; '.join(pn.d['promoted'][int(m.group(1))])
+                        owner = pn
+                        if tr['op'].get('def') and tr['op']['def'] != pn.path and crate.by_path.get(tr['op']['def']) is not None:
+                            owner = crate.by_path[tr['op']['def']]      # the constant of a helper inlined into this body
+                        if m and owner.d.get('promoted') and int(m.group(1)) < len(owner.d['promoted']):
+                            prom = ' ; '.join(owner.d['promoted'][int(m.group(1))])
                 det['compared_with'] = prom
                 swb = t.get('t')
                 while swb is not None and pn.term(swb)['k'] == 'goto':
@@ -434,14 +469,16 @@ def check_stream(fx, rep, crate, cfg):
                 some_true = bool(prom) and 'Some(const true)' in prom
                 inc_on_ne = not (rets & pn.reachable(ne_edge, avoid=inc_blocks))
                 no_inc_on_eq = not any(x in pn.reachable(eq_edge, avoid={swb}) for x in inc_blocks)
-                det.update({'increments_when_not_continuing': inc_on_ne, 'no_increment_when_continuing': no_inc_on_eq})
-                ok = some_true and inc_on_ne and no_inc_on_eq
+                # ... and nowhere else: from the success arm an increment is reachable only through the `!= Some(true)` edge
+                only_via_ne = not any(x in C.reachable_without_edge(pn, ok_t, (swb, ne_edge)) for x in inc_blocks)
+                det.update({'increments_when_not_continuing': inc_on_ne, 'no_increment_when_continuing': no_inc_on_eq, 'no_other_way_to_the_increment': only_via_ne})
+                ok = some_true and inc_on_ne and no_inc_on_eq and only_via_ne
     rep.check(ok, 'R06.4', '%s|success-completes-call-unless-continues|%s' % (fk, cfg), C.where(pn, ok_t),
               'a successful reply advances the index exactly when continues() != Some(true)',
               'a successful reply does not advance the completed-call index exactly when Reply::continues() != Some(true) '
               '(accepted idiom: comparison of continues() with the constant Some(true) by ==/!=)', det)
     # ---- R06.5 one receive per poll
-    inits = [(b, i) for b, i, s in pn.iter_assigns() if s['rv']['k'] == 'aggr' and s['rv'].get('variant') == 'Init' and 'ReplyStreamState' in s['rv'].get('adt', '')]
+    inits = [(b, i) for b, i, s in pn.iter_assigns() if s['rv']['k'] == 'aggr' and s['rv'].get('variant') == 'Init' and s['rv'].get('adt', '').startswith('connection::chain::')]
     item_ret = [b for b, i, s in C.aggr_adt_sites(pn, 'task::Poll', 'Ready') if s['place']['l'] == 0 and
                 pn.trace(s['rv']['ops'][0]).get('kind') == 'aggr' and pn.trace(s['rv']['ops'][0])['rv'].get('variant') == 'Some']
     set_blocks = set()
@@ -451,8 +488,23 @@ def check_stream(fx, rep, crate, cfg):
             if t['callee'].get('name') in ('set', 'project_replace') and bb in pn.reachable(b):
                 set_blocks.add(bb)
                 break
-    ok = bool(item_ret) and bool(set_blocks) and all(not (pn.reachable(ok_t, avoid=set_blocks) & {r_}) and not (pn.reachable(merr_t, avoid=set_blocks) & {r_})
-                                                       and not (pn.reachable(err_t, avoid=set_blocks) & {r_}) for r_ in item_ret)
+    # start of "an item has been received": the Ready edge of the poll of the receive future (the reset may come before or after the
+    # bookkeeping match); fall back to the arms of that match
+    starts = []
+    for bb, t in pn.iter_terms('call'):
+        if t['callee'].get('name') == 'poll' and not pn.is_cleanup(bb) and t.get('t') is not None:
+            swb = t['t']
+            hops = 0
+            while pn.term(swb)['k'] == 'goto' and hops < 4:
+                swb = pn.term(swb)['t']
+                hops += 1
+            if pn.term(swb)['k'] == 'switch':
+                si = pn.switch_info(swb)
+                if si and si.get('kind') == 'discr' and 0 in si['arms'] and 'Poll' in (si['place'].get('ty') or ''):
+                    starts.append(si['arms'][0])
+    if not starts:
+        starts = [ok_t, merr_t, err_t]
+    ok = bool(item_ret) and bool(set_blocks) and all(not (pn.reachable(st_, avoid=set_blocks) & {r_}) for st_ in starts for r_ in item_ret)
     rep.check(ok, 'R06.5', '%s|state-reset-per-item|%s' % (fk, cfg), pn.where(),
               'the state returns to Init on every path that yields an item (the next poll starts a fresh receive)',
               'an item can be yielded without resetting the state to Init: the finished receive future would be polled again')
